@@ -56,7 +56,7 @@ fn exec(c: &Call) -> Value {
 }
 
 /// SUDO_UID / SUDO_GID situations: (uid text, gid text, usable pair?, uid, gid)
-const SUDOS: [(Option<&str>, Option<&str>, bool, u32, u32); 7] = [
+const SUDOS: [(Option<&str>, Option<&str>, bool, u32, u32); 9] = [
     (None, None, false, 0, 0),
     (Some("1"), Some("2"), true, 1, 2),
     (Some("2"), Some("2"), true, 2, 2),
@@ -64,7 +64,74 @@ const SUDOS: [(Option<&str>, Option<&str>, bool, u32, u32); 7] = [
     (Some("0"), Some("1"), true, 0, 1),
     (Some("junk"), Some("2"), false, 0, 0),
     (Some("1"), None, false, 0, 0),
+    (Some("4242"), Some("4242"), true, 4242, 4242),
+    (Some("2"), Some("4242"), true, 2, 4242),
 ];
+
+/// /etc/passwd as the independent reference for user::from_uid (uid, gid, name, home, shell), file order
+fn passwd() -> Vec<Value> {
+    let txt = std::fs::read_to_string("/etc/passwd").unwrap_or_default();
+    txt.lines()
+        .filter_map(|l| {
+            let f: Vec<&str> = l.split(':').collect();
+            if f.len() < 7 || l.starts_with('#') {
+                return None;
+            }
+            Some(json!({"uid": f[2].parse::<u32>().ok()?, "gid": f[3].parse::<u32>().ok()?, "name": chars(f[0]), "home": chars(f[5]), "shell": chars(f[6])}))
+        })
+        .collect()
+}
+
+fn user_val(r: Result<RvResult<user::User>, String>) -> Value {
+    let empty = user::User::default();
+    let (o, u) = match &r {
+        Ok(Ok(u)) => ("ok".to_string(), u),
+        Ok(Err(e)) => (err_kind(e), &empty),
+        Err(_) => ("panic".to_string(), &empty),
+    };
+    json!({"o": o, "v": {"uid": u.uid, "gid": u.gid, "name": chars(&u.name), "home": pchars(&u.home), "shell": pchars(&u.shell), "ruid": u.ruid, "rgid": u.rgid,
+        "realname": chars(&u.realname), "realhome": pchars(&u.realhome), "realshell": pchars(&u.realshell), "is_root": vbool(u.is_root())}})
+}
+
+/// user::from_uid / current / name in a forked child with the given SUDO situation, optionally as an ordinary user
+fn users_child(path: &str, id: u64, sudo: usize, start_user: Option<(u32, u32)>, uids: &[u32]) -> bool {
+    let pid = unsafe { libc::fork() };
+    if pid < 0 {
+        return false;
+    }
+    if pid == 0 {
+        let (su, sg, set, u, g) = SUDOS[sudo];
+        let mut f = std::fs::OpenOptions::new().append(true).create(true).open(path).unwrap();
+        match su {
+            Some(x) => std::env::set_var("SUDO_UID", x),
+            None => std::env::remove_var("SUDO_UID"),
+        }
+        match sg {
+            Some(x) => std::env::set_var("SUDO_GID", x),
+            None => std::env::remove_var("SUDO_GID"),
+        }
+        let pw = passwd();
+        if let Some((uu, gg)) = start_user {
+            unsafe {
+                libc::setresgid(gg, gg, gg);
+                libc::setresuid(uu, uu, uu);
+            }
+        }
+        let q: Vec<Value> = uids.iter().map(|&x| json!({"uid": x, "r": user_val(guard(|| user::from_uid(x)))})).collect();
+        let cur = user_val(guard(|| user::current()));
+        let name = match guard(|| user::name()) {
+            Ok(Ok(n)) => json!({"o": "ok", "v": chars(&n)}),
+            Ok(Err(e)) => json!({"o": err_kind(&e), "v": chars("")}),
+            Err(_) => json!({"o": "panic", "v": chars("")}),
+        };
+        let rec = json!({"k": "fu", "id": id, "sudo": {"set": vbool(set), "uid": u, "gid": g}, "pw": pw, "q": q, "cur": cur, "name": name, "me": creds()});
+        let ok = writeln!(f, "{}", to_ascii_json(&rec)).is_ok();
+        unsafe { libc::_exit(if ok { 0 } else { 3 }) };
+    }
+    let mut st = 0;
+    unsafe { libc::waitpid(pid, &mut st, 0) };
+    libc::WIFEXITED(st) && libc::WEXITSTATUS(st) == 0
+}
 
 /// run one program in a forked child; the child appends its record to `path`
 fn run_child(path: &str, id: u64, sudo: usize, start_user: Option<(u32, u32)>, prog: &[Call]) -> bool {
@@ -130,6 +197,22 @@ fn main() {
     let mut crashed = 0u64;
     let mut n = 0u64;
     let starts: [Option<(u32, u32)>; 3] = [None, Some((1, 1)), Some((2, 1))];
+    // user::from_uid / current / name for every SUDO situation, as root and as two ordinary users
+    if worker == 0 {
+        let pwuids: Vec<u32> = passwd().iter().map(|e| e["uid"].as_u64().unwrap() as u32).collect();
+        let mut uids: Vec<u32> = vec![0, 1, 2, 4242, 4243];
+        uids.extend(pwuids.iter().copied().filter(|u| *u > 2).take(if thorough { 100 } else { 6 }));
+        for sudo in 0..SUDOS.len() {
+            for st in &starts {
+                id += 1;
+                prog.mark(id, "users");
+                n += 1;
+                if !users_child(&out, id, sudo, *st, &uids) {
+                    crashed += 1;
+                }
+            }
+        }
+    }
     let mut go = |sudo: usize, start: Option<(u32, u32)>, p: &[Call]| {
         id += 1;
         if id % workers != worker {
